@@ -220,7 +220,12 @@ func genDocument(r *vlib.Rng, size int) genDoc {
 		htmlStyle += "position:relative;z-index:" + fmt.Sprint(vlib.Pick(r, []int{-1, 0, 3})) + ";"
 		g.tag("root-z")
 	}
-	pageCSS := fmt.Sprintf("size:1000px 3000px;margin:20px;background:%s;", colour(pageBgCode))
+	pageH := 3000
+	if r.Chance(1, 10) { // a few documents break over several pages (boxes split at page breaks)
+		pageH = r.Range(90, 200)
+		g.tag("small-page")
+	}
+	pageCSS := fmt.Sprintf("size:1000px %dpx;margin:20px;background:%s;", pageH, colour(pageBgCode))
 	if r.Chance(1, 3) {
 		pageCSS += fmt.Sprintf("border:2px solid %s;", colour(pageBordCode))
 	}
